@@ -58,12 +58,15 @@ type Contract struct {
 	id       string
 
 	Fn         *ssa.Function
+	DischargedBits map[string]bool // [diff] contracts: components discharged in this run (with the frame)
 	Discharged bool   // set by the helper-layer pass of this run
 	Status     string // "", "discharged", "failed", "unverified"
 	Loops      map[int]*LoopSpec
 }
 
-func (c *Contract) Usable() bool { return c != nil && c.Discharged && !c.Inline }
+func (c *Contract) Usable() bool {
+	return c != nil && (c.Discharged || len(c.DischargedBits) > 0) && !c.Inline
+}
 
 type LoopSpec struct {
 	Ordinal    int
